@@ -413,6 +413,43 @@ pub proof fn lemma_unlink_then_drop_is_purge(t: Tables, x: Ptr)
     assert(unlink_spec(t, x).remove(x) =~= purge_spec(t, x));
 }
 
+/// Loopback records only ever sit in the table of the object they name (adopt_unchecked's same-handle branch)
+pub open spec fn loop_self(t: Tables) -> bool {
+    forall|p: Ptr, l: Link| #![trigger t[p].contains_key(l)] t.contains_key(p) && t[p].contains_key(l) && l.kind == Kind::Loopback ==> l.ptr == p
+}
+
+/// I4 (every record names a present object) and loop_self are inductive over adopt / unadopt / purge
+pub proof fn lemma_closed_preserved(t: Tables, a: Ptr, b: Ptr)
+    requires tables_closed(t), loop_self(t), t.contains_key(a), t.contains_key(b),
+    ensures
+        tables_closed(adopt_spec(t, a, b)), loop_self(adopt_spec(t, a, b)),
+        tables_closed(unadopt_spec(t, a, b)), loop_self(unadopt_spec(t, a, b)),
+        tables_closed(purge_spec(t, a)), loop_self(purge_spec(t, a)),
+{
+    let t1 = t.insert(a, bump(t[a], fl(b)));
+    let t2 = adopt_spec(t, a, b);
+    assert forall|p: Ptr, l: Link| #![trigger t1[p].contains_key(l)] t1.contains_key(p) && t1[p].contains_key(l) implies t1.contains_key(l.ptr) && (l.kind == Kind::Loopback ==> l.ptr == p) by {
+        if p == a && l == fl(b) { } else { assert(t[p].contains_key(l)); }
+    }
+    assert forall|p: Ptr, l: Link| #![trigger t2[p].contains_key(l)] t2.contains_key(p) && t2[p].contains_key(l) implies t2.contains_key(l.ptr) && (l.kind == Kind::Loopback ==> l.ptr == p) by {
+        if p == b && l == bl(a) { } else { assert(t1[p].contains_key(l)); }
+    }
+    let u1 = t.insert(a, unbump(t[a], fl(b)));
+    let u2 = unadopt_spec(t, a, b);
+    assert forall|p: Ptr, l: Link| #![trigger u1[p].contains_key(l)] u1.contains_key(p) && u1[p].contains_key(l) implies u1.contains_key(l.ptr) && (l.kind == Kind::Loopback ==> l.ptr == p) by {
+        assert(t[p].contains_key(l));
+    }
+    assert forall|p: Ptr, l: Link| #![trigger u2[p].contains_key(l)] u2.contains_key(p) && u2[p].contains_key(l) implies u2.contains_key(l.ptr) && (l.kind == Kind::Loopback ==> l.ptr == p) by {
+        assert(u1[p].contains_key(l));
+    }
+    let w = purge_spec(t, a);
+    assert forall|p: Ptr, l: Link| #![trigger w[p].contains_key(l)] w.contains_key(p) && w[p].contains_key(l) implies w.contains_key(l.ptr) && (l.kind == Kind::Loopback ==> l.ptr == p) by {
+        assert(t[p].contains_key(l));
+        assert(l != fl(a) && l != bl(a));
+        if l.ptr == a { assert(l.kind == Kind::Loopback); assert(l.ptr == p); }
+    }
+}
+
 /// "no zero-valued record" is inductive over the three transition functions (it is what makes `cnt == 0`
 /// mean "no record"); the count bound is the one Links::insert requires
 pub proof fn lemma_nonzero_preserved(t: Tables, a: Ptr, b: Ptr)
